@@ -171,9 +171,12 @@ fn scenario_pool(ops: &[Sexp], res: &mut CaseResult) {
                 }
             }
             Some("chain") => {
-                // nested scopes deeper than the inline-help bound (backup workers)
+                // `n` concurrent chains of nested scopes, each `d` levels deep: deeper than
+                // the inline-help bound times the number of workers, so that every primary
+                // worker ends up blocked and only backup workers keep the queue moving
                 let Some(p) = &pool else { continue };
-                let d = op.args().first().and_then(|x| x.as_int()).unwrap_or(70).clamp(1, 90) as usize;
+                let d = op.args().first().and_then(|x| x.as_int()).unwrap_or(70).clamp(1, 400) as usize;
+                let n = op.args().get(1).and_then(|x| x.as_int()).unwrap_or(1).clamp(1, 4) as usize;
                 let hits = AtomicUsize::new(0);
                 fn go(depth: usize, hits: &AtomicUsize) {
                     hits.fetch_add(1, Ordering::SeqCst);
@@ -185,13 +188,15 @@ fn scenario_pool(ops: &[Sexp], res: &mut CaseResult) {
                     });
                 }
                 p.scope(|sc| {
-                    sc.spawn(|_| go(d, &hits));
+                    for _ in 0..n {
+                        sc.spawn(|_| go(d, &hits));
+                    }
                 });
                 let h = hits.load(Ordering::SeqCst);
-                res.count("chains", 1);
-                res.log(&format!("chain {d} hits={h}"));
-                if h != d + 1 {
-                    res.violation("chain-incomplete", format!("depth {d}: {h} levels ran"));
+                res.count("chains", n as u64);
+                res.log(&format!("chain {d} x{n} hits={h}"));
+                if h != n * (d + 1) {
+                    res.violation("chain-incomplete", format!("{n} chains of depth {d}: {h} levels ran"));
                     return;
                 }
             }
@@ -708,10 +713,11 @@ impl Property for C19 {
         match rng.weighted(&[8, 3, 3, 2, 2, 2, 1, 1, 1]) {
             0 => {
                 let n = *rng.pick(&[1i64, 1, 2, 2, 3, 4, 4, 8, 16]);
+                let mut pool_size = n;
                 ops.push(Sexp::call("pool", vec![Sexp::int(n)]));
                 let scopes = 1 + rng.below(3);
                 for _ in 0..scopes {
-                    match rng.weighted(&[8, 1, 2]) {
+                    match rng.weighted(&[8, 2, 2]) {
                         0 => {
                             let mut budget = 2 + rng.below(14);
                             let allow_panic = rng.chance(1, 3);
@@ -722,11 +728,22 @@ impl Property for C19 {
                             }
                             ops.push(Sexp::call("scope", roots));
                         }
-                        1 => ops.push(Sexp::call("chain", vec![Sexp::int(*rng.pick(&[3i64, 10, 66, 70]))])),
+                        1 => {
+                            // around and beyond (inline-help bound 64) x (workers that can be exhausted)
+                            let base = 64 * pool_size.min(3);
+                            let d = match rng.below(4) {
+                                0 => rng.range(2, 12),
+                                1 => 64 + rng.range(1, 8),
+                                2 => base + rng.range(1, 24),
+                                _ => base / 2 + rng.range(0, 10),
+                            };
+                            ops.push(Sexp::call("chain", vec![Sexp::int(d), Sexp::int(rng.range(1, 3))]));
+                        }
                         _ => ops.push(Sexp::call("pfe", vec![Sexp::int(rng.below(12) as i64)])),
                     }
                     if rng.chance(1, 6) {
                         let n = *rng.pick(&[1i64, 2, 3, 5]);
+                        pool_size = n;
                         ops.push(Sexp::call("pool", vec![Sexp::int(n)]));
                     }
                 }
